@@ -451,18 +451,17 @@ func (b *Builder) Align(t types.Type) uintptr {
 			return 2
 		case types.Int32, types.Uint32:
 			return 4
-		case types.Int64, types.Uint64:
+		case types.Int64, types.Uint64, types.Float64, types.Complex128:
+			if b.Align64 != 0 {
+				return b.Align64
+			}
 			return 8
 		case types.Int, types.Uint, types.Uintptr, types.UnsafePointer:
 			return b.PtrSize
 		case types.Float32:
 			return 4
-		case types.Float64:
-			return 8
 		case types.Complex64:
 			return 4
-		case types.Complex128:
-			return 8
 		case types.String:
 			return b.PtrSize
 		}
